@@ -8,14 +8,20 @@ pub enum CelStackValue<'a> {
     BoundCall {
         callable: RsCallable<'a>,
         value: CelValue,
+        member: String,
     },
 }
 
 impl<'a> CelStackValue<'a> {
+    /// The value this stack entry stands for. A member that named a function or macro
+    /// but is not called is a member the object does not have.
     pub fn into_value(self) -> CelResult<CelValue> {
         match self {
             CelStackValue::Value(val) => Ok(val),
-            _ => Err(CelError::internal("Expected value")),
+            CelStackValue::BoundCall { value, .. } if value.is_err() => Ok(value),
+            CelStackValue::BoundCall { member, .. } => {
+                Ok(CelValue::from_err(CelError::attribute("obj", &member)))
+            }
         }
     }
 
@@ -28,7 +34,9 @@ impl<'a> CelStackValue<'a> {
 
     pub fn as_bound_call(&'a self) -> Option<(&'a RsCallable<'a>, &'a CelValue)> {
         match self {
-            CelStackValue::BoundCall { callable, value } => Some((callable, value)),
+            CelStackValue::BoundCall {
+                callable, value, ..
+            } => Some((callable, value)),
             _ => None,
         }
     }
@@ -43,10 +51,6 @@ impl<'a> Into<CelStackValue<'a>> for CelValue {
 impl<'a> TryInto<CelValue> for CelStackValue<'a> {
     type Error = CelError;
     fn try_into(self) -> Result<CelValue, Self::Error> {
-        if let CelStackValue::Value(val) = self {
-            Ok(val)
-        } else {
-            Err(CelError::internal("Expected value 2"))
-        }
+        self.into_value()
     }
 }
